@@ -34,7 +34,8 @@ HEADER = ("From Coq Require Import ZArith QArith String List.\nImport ListNotati
           "From VTL Require Import Base.Val Model.Types Model.Cast.\nOpen Scope string_scope.\n")
 VTL_KINDS = ("Runtime", "InputValidation", "DataLoad", "OtherVTL", "Semantic")
 MODELLED = {(s, d) for s in G.BASIC for d in G.BASIC} | {("Date", "String"), ("String", "Date"), ("Date", "Date"), ("Time", "String"),
-                                                        ("Time", "Time"), ("Duration", "String"), ("String", "Duration"), ("Duration", "Duration")}
+                                                        ("Time", "Time"), ("Duration", "String"), ("String", "Duration"), ("Duration", "Duration"),
+                                                        ("Time", "Time_Period")}      # calendar-exact in Coq (interval_period)
 # String values whose acceptance the documentation does not decide (lenient numeric syntax; formats of the input side)
 # (String -> Integer and String -> Duration are no longer here: since the repairs "cast("3.5", integer) returned 3" and "cast of a String
 #  component to duration accepted any text" the engine's accepted syntax IS parse_int / parse_duration of Model/Cast.v, compared strictly)
@@ -244,7 +245,15 @@ class Oracle:
         if not self.doc_allows(s, d):
             e = {"kind": "sem", "basis": "documented table: conversion not supported"}
             if self.code_allows(s, d):
-                e["code_reading"] = {"kind": "val", "val": None, "basis": "null"} if v is None else time_rule(s, d, v)
+                m = self.model.get((s, d, k)) if (s, d) in MODELLED and (s, d) != ("String", "Boolean") else None
+                if v is None:
+                    e["code_reading"] = {"kind": "val", "val": None, "basis": "null"}
+                elif m is not None and m[0] == "val":
+                    e["code_reading"] = {"kind": "val", "val": m[1], "basis": "Model/Cast.v cast_val (code's reading, calendar-exact)"}
+                elif m is not None and m[1] == "2-1-5-1":
+                    e["code_reading"] = {"kind": "reject", "basis": "Model/Cast.v cast_val: runtime error"}
+                else:
+                    e["code_reading"] = time_rule(s, d, v)
             return e
         if v is None:
             return {"kind": "val", "val": None, "basis": "null converts to null"}
